@@ -9,12 +9,21 @@ for l in open('/verif/properties.jsonl'):
     p = json.loads(l)
     if p['id'] == pid:
         break
+import glob
+prev = []
+for m in sorted(glob.glob(f'/verif/seeded/{pid}-*/meta.json')):
+    try:
+        d = json.load(open(m)); prev.append("- " + d.get('summary', '')[:300])
+    except Exception:
+        pass
+AVOID = ("\nEARLIER CHANGES ALREADY COLLECTED FOR THIS PROPERTY (choose different functions and different mechanisms from these):\n" + "\n".join(prev) + "\n") if prev else ""
 prop = f"{p['id']} — {p['title']}\n\n{p['statement']}\n\nQuantifier: {p['quantifier']['text']}\n\nFiles the property is anchored in: {', '.join(p['anchors']['files'])}"
 print(f"""You are testing how well a verification effort detects realistic regressions in the Python library pyoda-time (a port of Noda Time). You get ONLY the text of one semantic property and your own scratch git worktree of the repository at {wt} (work only inside that directory and /tmp/mutout_{pid}; never touch /repo or /verif, and do not read anything under /verif).
 
 THE PROPERTY
 {prop}
 
+{AVOID}
 YOUR TASK: produce TWO independent changes (patches) to the library source under {wt}/pyoda_time, each of which BREAKS this property while the code still imports and the repository's pinned test suite still passes, plus for each a small demonstration program that fails with the change and passes without it. We want subtle, realistic regressions of the kind a maintainer could plausibly introduce (an off-by-one in a boundary comparison, a wrong branch for negative values, a carry dropped in a rarely taken path, a cache key that collides, a fast path that skips validation, two cooperating sites that each look fine alone…) that need something specific to manifest: an unusual input, a value at a range edge, a particular multi-step sequence, a rarely used calendar/zone/unit — NOT changes that ordinary use or the simplest call would expose at once, and not changes that just raise exceptions everywhere. The two changes should be in different functions/mechanisms.
 
 How to run things:
